@@ -347,7 +347,7 @@ fn read_data_from_stream<F: Read + Seek>(
 }
 
 /// The largest stream length that a file of this version can record.
-fn max_stream_len(version: Version) -> u64 {
+pub(crate) fn max_stream_len(version: Version) -> u64 {
     (consts::MAX_REGULAR_SECTOR as u64 * version.sector_len() as u64)
         .min(version.stream_len_mask())
 }
